@@ -211,6 +211,42 @@ class LayoutGen(object):
         return {"pre": self.filler(), "cmds": [self.cmd(c) for c in prog]}
 
 
+def split_tree(rng, prog):
+    """split a program over files: {name: program}, the main program; `load` commands inserted at random command
+    boundaries (first, middle, last command of the loading file), loaded files may load further files or be empty"""
+    files = {}
+    counter = [0]
+
+    def split(cmds, depth):
+        if depth >= 3 or rng.random() < (0.25 if depth else 0.0):
+            return list(cmds)
+        out = []
+        k = rng.randrange(1, 3)
+        cuts = sorted(rng.randrange(0, len(cmds) + 1) for _ in range(2 * k))
+        pos = 0
+        for a, b in zip(cuts[::2], cuts[1::2]):
+            out += cmds[pos:a]
+            counter[0] += 1
+            name = "f%d.flo" % counter[0]
+            files[name] = split(cmds[a:b], depth + 1)
+            out.append(["load", name])
+            pos = b
+        out += cmds[pos:]
+        return out
+    main = split(prog, 0)
+    return files, main
+
+
+def expand_ref(files, main, depth=0):
+    """reference: the commands dispatched for a tree of programs"""
+    out = []
+    for c in main:
+        out.append(c)
+        if c[0] == "load":
+            out += expand_ref(files, files[c[1]], depth + 1)
+    return out
+
+
 def prog_ok(prog):
     return all(c and all(tok_ok(t) for t in c) and c[0] not in fb.RESERVED for c in prog)
 
@@ -231,7 +267,13 @@ class CHECK(core.Check):
             "reserved words; (c) exhaustive: all strings of length <= 4 (quick) / <= 5 (thorough) over "
             "{a, space, quote, #, backslash, newline} plus a reserved word alphabet of lines. A case is non-trivial "
             "when at least one command is dispatched; distinct by text. 'build' cases additionally build and run "
-            "(8 ticks) canonical and laid-out text with the real Builder.")
+            "(8 ticks) canonical and laid-out text with the real Builder. "
+            "(d) file trees (a quarter of the generated cases): a program split over up to ~6 files by `load` commands at "
+            "random command boundaries (load as first / middle / last command, nested three deep, empty files), every "
+            "file with its own random layout and with or without its final newline, read by the real Builder.build with "
+            "the real buildLoad; plus exhaustive small trees: every parent of <= 3 lines containing `load f` with every "
+            "loaded file of <= 2 lines (<= 3 thorough) over {command, connective continuation, blank, comment, backslash "
+            "line, load of a missing file}, last line with and without newline.")
     TRUSTED = ["correspondence: Builder.build with dispatch replaced by a recorder vs Lean `commands` on the same "
                "UTF-8 text; Lean render/ok/erase of each generated layout vs the harness renderer",
                "CPython: str.strip/rstrip white-space set, re.findall alternation order, universal newlines of "
@@ -239,13 +281,18 @@ class CHECK(core.Check):
                "that the builder is a function of the dispatched token lists (plus line numbers used in messages and "
                "Act.count): exercised by the build cases (house dump + 8-tick trace), not proved"]
     PARTIAL = ["C16_layout_asfound_partial (code as found: needs Layout.spaceLead; defect D50)",
-               "load: the file switch of `load` is outside the model (the command is dispatched like any other)",
+               "load: file names are looked up as written, all files in one directory (path resolution relative to the "
+               "loading file, `~` expansion and a file that loads itself until the process runs out of descriptors are not "
+               "modelled); C16_load_layout / C16_load_layouts_agree are the statements for trees of files",
                "tabs/other white space BETWEEN tokens are not separators of REO_Chunks; layouts use spaces between "
                "tokens (indentation and trailing white space range over all Python white space)",
                "missing final newline: C16_final_newline_optional / C16_layout_noeol"]
     TECHNIQUE = ("Lean 4 theorem over all layouts (structural induction on layout, runs, segments; an inductive "
                  "'spaced tokens' predicate closed under strip/join) + differential correspondence with the real reader")
-    LEVEL_TEXT = ("Full proof on the model of the repaired reader: for every well-formed Layout (any indentation, "
+    LEVEL_TEXT = ("File trees: the read loop with `load` dispatches the load-expansion of the files' programs "
+                  "(C16_load_reads_programs), so a tree of files in any admissible layouts, each with or without final newline, "
+                  "dispatches the expansion of the erased programs (C16_load_layout, C16_load_layouts_agree). "
+                  "Full proof on the model of the repaired reader: for every well-formed Layout (any indentation, "
                   "spacing, backslash and connective continuations, filler and comments) `commands (render L) = erase L` "
                   "(C16_layout), hence two layouts of one program dispatch the same commands (C16_layouts_agree) and "
                   "every well-formed program has a layout (C16_canon, C16_program); the newline at the very end of the file is optional (C16_final_newline_optional, C16_layout_noeol). For the code as found the same is "
@@ -293,10 +340,26 @@ class CHECK(core.Check):
         return {"kind": "layout", "prog": prog, "layout": L, "eol": rng.random() > 0.15, "build": build,
                 "origin": origin}
 
+    def tree_case(self, rng, prog, origin):
+        files, main = split_tree(rng, prog)
+        d50 = 0.3 if self.fixed() else 0.0
+        g = LayoutGen(rng, wild=rng.choice([0.2, 0.5, 0.9]), d50=d50)
+        lay = {name: {"prog": p, "layout": g.layout(p), "eol": rng.random() > 0.3} for name, p in files.items()}
+        return {"kind": "tree", "files": lay, "main": {"prog": main, "layout": g.layout(main), "eol": rng.random() > 0.15},
+                "origin": origin}
+
     def generate(self, rng, n, tier):
         plans = self.plans()
         n_build = max(20, n // 6)
         n_soup = n // 4
+        n_tree = n // 4
+        n -= n_tree
+        for i in range(n_tree):
+            if plans and rng.random() < 0.2:
+                name, text, prog = rng.choice(plans)
+                yield self.tree_case(rng, prog, "tree-plan:" + name)
+            else:
+                yield self.tree_case(rng, fb.gen_program(rng), "tree-gen")
         n_plan = min(len(plans) * (2 if tier == "thorough" else 1), n // 4)
         for i in range(n_plan):
             name, text, prog = plans[i % len(plans)]
@@ -320,6 +383,30 @@ class CHECK(core.Check):
         for n in range(1, 4 if tier == "quick" else 5):
             for t in itertools.product(lines, repeat=n):
                 yield {"kind": "text", "text": "".join(t), "origin": "exhaustive-lines"}
+        # file boundaries: every parent of <= 3 lines holding a `load f`, every loaded file of <= 2 (3) lines, the last
+        # one with and without its newline; `load g` names a file that does not exist
+        parent = ["do x\n", " of y\n", "load f\n", "# c\n"]
+        child = ["do z\n", " to w\n", "\n", "# c\n", "load g\n", "to v \\\n"]
+        for n in range(1, 4):
+            for t in itertools.product(parent, repeat=n):
+                if "load f\n" not in t:
+                    continue
+                for m in range(0, 3 if tier == "quick" else 4):
+                    for u in itertools.product(child, repeat=m):
+                        text = "".join(u)
+                        for cut in ((False, True) if text.endswith("\n") else (False,)):
+                            yield {"kind": "tree-text", "main": "".join(t), "files": {"f": text[:-1] if cut else text},
+                                   "origin": "exhaustive-tree"}
+
+    def tree_texts(self, case):
+        """(main text, {name: text})"""
+        if case["kind"] == "tree-text":
+            return case["main"], case["files"]
+
+        def text(f):
+            t = render(f["layout"])
+            return t if f["eol"] else t[:-1]
+        return text(case["main"]), {n: text(f) for n, f in case["files"].items()}
 
     def text_of(self, case):
         if case["kind"] == "text":
@@ -328,6 +415,14 @@ class CHECK(core.Check):
         return t if case.get("eol", True) else t[:-1]
 
     def requests(self, case):
+        if case["kind"] in ("tree", "tree-text"):
+            main, files = self.tree_texts(case)
+            fl = ";".join("%s:%s" % (hx(n), hx(t)) for n, t in sorted(files.items())) or "-"
+            reqs = ["tree %s 8 %s %s" % ("1" if self.fixed() else "0", hx(main), fl)]
+            if case["kind"] == "tree":
+                for f in [case["main"]] + [case["files"][n] for n in sorted(case["files"])]:
+                    reqs.append("layout " + " ".join(layout_words(f["layout"])))
+            return reqs
         op = "cmds" if self.fixed() else "cmdsold"
         reqs = [op + " " + hx(self.text_of(case))]
         if case["kind"] == "layout":
@@ -335,6 +430,14 @@ class CHECK(core.Check):
         return reqs
 
     def model_post(self, case, replies):
+        if case["kind"] in ("tree", "tree-text"):
+            out = ["tree " + replies[0]]
+            if case["kind"] == "tree":
+                for f, rep_ in zip([case["main"]] + [case["files"][n] for n in sorted(case["files"])], replies[1:]):
+                    parts = rep_.split(" ")
+                    if len(parts) != 4 or parts[0] != "1" or unhx(parts[2]) != render(f["layout"]) or parts[3] != enc_cmds(f["prog"]):
+                        out.append("Lean layout (ok/render/erase) differs from the harness for a file of the tree")
+            return out
         out = ["cmds " + replies[0]]
         if case["kind"] == "layout":
             parts = replies[1].split(" ")
@@ -354,9 +457,25 @@ class CHECK(core.Check):
         return out
 
     def impl(self, case):
+        if case["kind"] in ("tree", "tree-text"):
+            main, files = self.tree_texts(case)
+            cmds, ended = fb.dispatched_tree(main, files)
+            return ["tree %s %s" % (ended, enc_cmds(cmds))]
         return ["cmds " + enc_cmds(fb.dispatched(self.text_of(case)))]
 
     def oracle(self, case, out):
+        if case["kind"] == "tree":
+            # the programs of the files, spliced after their `load` commands, computed here from the programs alone
+            want = expand_ref({n: f["prog"] for n, f in case["files"].items()}, case["main"]["prog"])
+            if not out or out[0] != "tree done " + enc_cmds(want):
+                got = out[0].split(" ") if out else ["?", "?", "-"]
+                cmds = dec_cmds(got[2]) if len(got) == 3 else got
+                for i, (a, b) in enumerate(itertools.zip_longest(cmds, want)):
+                    if a != b:
+                        return ("the layout of the file tree changed what is dispatched (reading ended: %s): command %d is "
+                                "%r, the programs of the files give %r" % (got[1], i, a, b))
+                return "reading the file tree ended with %s" % got[1]
+            return None
         if case["kind"] != "layout":
             return None
         # the property compares a layout with the canonical layout of the same program (one command per
@@ -384,11 +503,27 @@ class CHECK(core.Check):
         return None
 
     def nontrivial(self, case, out):
+        if case["kind"] in ("tree", "tree-text"):
+            return bool(out) and out[0].startswith("tree ") and not out[0].endswith(" -")
         return bool(out) and out[0].startswith("cmds ") and out[0] != "cmds -"
 
     def bucket(self, case, out):
         if case["kind"] == "text":
             return "text:" + case.get("origin", "")
+        if case["kind"] == "tree-text":
+            return "tree-text:" + (out[0].split(" ")[1] if out else "?")
+        if case["kind"] == "tree":
+            fs = list(case["files"].values())
+            f = ["files%d" % min(len(fs), 4)]
+            if any(not x["eol"] for x in fs):
+                f.append("noeol")
+            if any(x["layout"]["cmds"] and any(run_tokens(r) for r in x["layout"]["cmds"][-1]["conts"][-1:]) for x in fs):
+                f.append("ends-in-continuation")
+            if any(not x["prog"] for x in fs):
+                f.append("empty-file")
+            if any(x["prog"] and x["prog"][-1][0] == "load" for x in fs + [case["main"]]):
+                f.append("load-last")
+            return "tree:" + "+".join(f)
         L = case["layout"]
         runs = list(all_runs(L))
         f = []
@@ -419,6 +554,8 @@ class CHECK(core.Check):
             yield self.layout_case(rng, fb.gen_program(rng), "search", build=(i % 4 == 0), wild=0.9)
 
     def shrink_candidates(self, case):
+        if case["kind"] in ("tree", "tree-text"):
+            return
         if case["kind"] == "text":
             t = case["text"]
             for i in range(len(t)):
